@@ -1130,13 +1130,48 @@ struct Runner {
                     }
                     const bool move = e.chance(40);
                     MV         taken = move ? *dm : deep_copy(*dm);
-                    if (move) {
+                    // through the Value overloads, or through the overloads that take the payload itself (ObjectT / ArrayT / String by const
+                    // reference or rvalue, C string, view) - the payload sits inside the value being assigned to (chosen without entropy)
+                    const unsigned how = unsigned(trace.size() + dm->obj.size() + dm->arr.size() + dm->s.size()) % 3;
+                    using ObjT = HArray<String<char>, VC>;
+                    using ArrT = Array<VC>;
+                    if (how != 0 && dm->k == MK::Obj && dv->IsObject() && !has_ptr(*dm)) {
+                        if (move) {
+                            *t.v = Memory::Move(*const_cast<ObjT *>(dv->GetObject()));
+                        } else {
+                            *t.v = *dv->GetObject();
+                        }
+                        taken.tombstone_free = move ? dm->tombstone_free : true;
+                        trace += move ? "=ObjectT&&(own descendant);" : "=const ObjectT&(own descendant);";
+                    } else if (how != 0 && dm->k == MK::Arr && dv->IsArray() && !has_ptr(*dm)) {
+                        if (move) {
+                            *t.v = Memory::Move(*const_cast<ArrT *>(dv->GetArray()));
+                        } else {
+                            *t.v = *dv->GetArray();
+                        }
+                        trace += move ? "=ArrayT&&(own descendant);" : "=const ArrayT&(own descendant);";
+                    } else if (how != 0 && dm->k == MK::Str && dv->IsString()) {
+                        if (move) {
+                            *t.v = Memory::Move(*const_cast<String<char> *>(dv->GetString()));
+                            trace += "=String&&(own descendant);";
+                        } else if (how == 1 && dm->s.find('\0') == Str::npos && dv->StringStorage() != nullptr) {
+                            *t.v = dv->StringStorage();
+                            trace += "=C-string(own descendant);";
+                        } else if (how == 1) {
+                            *t.v = dv->GetStringView();
+                            trace += "=StringView(own descendant);";
+                        } else {
+                            *t.v = *dv->GetString();
+                            trace += "=const String&(own descendant);";
+                        }
+                    } else if (move) {
                         *t.v = Memory::Move(*dv);
+                        trace += "=move(own descendant);";
                     } else {
                         *t.v = static_cast<const VC &>(*dv);
+                        trace += "=copy(own descendant);";
                     }
                     *t.m = taken;
-                    trace += move ? "=move(own descendant);" : "=copy(own descendant);";
                     interesting = true;
                     break;
                 }
